@@ -104,8 +104,10 @@ func (d *dyn) usage() (sum map[string]corev1.ResourceList, members map[string][]
 		if node != nil && node.DeletionTimestamp != nil {
 			continue // node being deleted
 		}
+		// the capacity that exists is the instance's (provider truth) until the node is initialized and reports for itself:
+		// a joining node whose status is incomplete (kubelet / device plugin not up yet) is no smaller for that
 		capacity, src := inst.Capacity, "instance"
-		if node != nil && registered(nc) {
+		if node != nil && registered(nc) && node.Labels[v1.NodeInitializedLabelKey] == "true" {
 			capacity, src = node.Status.Capacity, "node"
 		}
 		if sum[pool] == nil {
@@ -315,7 +317,11 @@ func (d *dyn) advance(name string) string {
 	nodeName := world.NodeNameFor(inst.ProviderID)
 	node := &corev1.Node{}
 	if e.API.Raw.Get(bg, types.NamespacedName{Name: nodeName}, node) != nil {
-		e.KubeletRegister(inst, world.KubeletOpts{Ready: false, NotReadyTaints: true, ZeroExtended: d.rng.Intn(2) == 0})
+		omit := []string{"", "", "extended", "all"}[d.rng.Intn(4)]
+		e.KubeletRegister(inst, world.KubeletOpts{Ready: false, NotReadyTaints: true, ZeroExtended: d.rng.Intn(2) == 0, OmitCapacity: omit})
+		if omit != "" {
+			d.r.Inc("dyn_nodes_joined_without_reporting_capacity:" + omit)
+		}
 		return "node-appeared"
 	}
 	if !registered(nc) {
